@@ -119,6 +119,7 @@ def check_mean(case, ctx):
     pd_arg = P(d_arg) if not isinstance(d_arg, tuple) else tuple(P(x) for x in d_arg)
     pw_arg = None if w_arg is None else (P(w_arg) if not isinstance(w_arg, tuple) else tuple(P(x) for x in w_arg))
     pcoords = (P(e), P(n)) + tuple(P(x) for x in extras)
+    pcoords = build.maybe_stack(pcoords, build.stack_flag(case))
     if build.plain_flag(case):
         # the same object is used on another (mirrored, shorter, shifted and shrunk) data set first: nothing may carry over to the judged call
         try:
